@@ -230,11 +230,19 @@ impl Data {
         let mut windows: Vec<envelope::Window> = Vec::new();
         let mut thermal_bridges: Vec<envelope::ThermalBridge> = Vec::new();
         let mut shadings: Vec<envelope::Shading> = Vec::new();
+        // Referencias explícitas de los espacios a condiciones de uso y de sistemas (espacio, tipo, nombre)
+        // El LIDER antiguo no las escribe y se toma el nombre de SPACE-TYPE, que puede no estar definido
+        let mut conditions_refs: Vec<(String, &str, String)> = Vec::new();
         for block in env_blocks {
             match block.btype {
                 // Espacios -----------
                 Space => {
                     let polygon_name = block.attrs.get_str("POLYGON")?;
+                    for key in ["SPACE-CONDITIONS", "SYSTEM-CONDITIONS"] {
+                        if let Ok(name) = block.attrs.get_str(key) {
+                            conditions_refs.push((block.name.clone(), key, name));
+                        }
+                    }
                     let mut space = envelope::Space::try_from(block)?;
                     // Insertamos el polígono -------
                     space.polygon = polygons
@@ -356,6 +364,23 @@ impl Data {
                     );
                 }
             };
+        }
+
+        // Las condiciones de uso y de sistemas que los espacios indican explícitamente deben estar definidas
+        for (space, key, name) in conditions_refs {
+            let defined = if key == "SPACE-CONDITIONS" {
+                space_conditions.contains_key(&name)
+            } else {
+                system_conditions.contains_key(&name)
+            };
+            if !defined {
+                bail!(
+                    "No se ha encontrado la definición {} {} del espacio {}",
+                    key,
+                    name,
+                    space
+                );
+            }
         }
 
         Ok(Self {
